@@ -331,7 +331,10 @@ fn run_setters(r: &mut Rng, n: u64) {
         for _ in 0..r.below(8) {
             match r.below(3) {
                 0 => { let rt = roots[r.below(roots.len() as u64) as usize]; ops.push(format!("r:{}", if rt == "-" { "-".to_string() } else { format!("={}", hex(rt.as_bytes())) })); sm.set_source_root(if rt == "-" { None } else { Some(rt) }); }
-                1 => { let extra = if r.below(10) == 0 { 1 } else { 0 }; let k = r.below(nsrc as u64 + extra) as u32; let v = pool[r.below(pool.len() as u64) as usize]; ops.push(format!("s:{}:={}", k, hex(v.as_bytes())));
+                1 => { let extra = if r.below(10) == 0 { 1 } else { 0 }; let k = r.below(nsrc as u64 + extra) as u32;
+                       // mostly a name from the pool; sometimes exactly the name the source currently READS as (the joined one): it becomes the new raw name
+                       let cur: Option<String> = if r.below(5) == 0 { sm.get_source(k).map(|x| x.to_string()) } else { None };
+                       let v: &str = match &cur { Some(c) => c.as_str(), None => pool[r.below(pool.len() as u64) as usize] }; ops.push(format!("s:{}:={}", k, hex(v.as_bytes())));
                        if catch_unwind(AssertUnwindSafe(|| sm.set_source(k, v))).is_err() { panicked = true; break; } }
                 _ => { let k = r.below(nsrc as u64) as u32; let c = if r.below(2) == 0 { Some("c") } else { None }; ops.push(format!("c:{}:{}", k, c.map(|s| format!("={}", hex(s.as_bytes()))).unwrap_or("-".into())));
                        if catch_unwind(AssertUnwindSafe(|| sm.set_source_contents(k, c))).is_err() { panicked = true; break; } }
